@@ -9,7 +9,7 @@
 (* with faults, TraceStore.tla judges the real code with the same          *)
 (* operators.                                                              *)
 (***************************************************************************)
-EXTENDS Integers, Sequences, FiniteSets, TLC
+EXTENDS Integers, Sequences, FiniteSets, TLC, Json
 
 Usable(dir) == dir \in {"absent", "present"}        \* a missing directory is created
 Put(entries, k, v) == [x \in DOMAIN entries \cup {k} |-> IF x = k THEN v ELSE entries[x]]
@@ -29,23 +29,39 @@ RetrieveResult(dir, entries, id) ==
 
 (* --------------------------- design machine ---------------------------- *)
 CONSTANTS Keys, Payloads, MaxSteps
-VARIABLES dir, entries, last, steps
-vars == <<dir, entries, last, steps>>
+VARIABLES dir, entries, last, steps, script
+vars == <<dir, entries, last, steps, script>>
+view == <<dir, entries, last, steps>>
 Docs == [id : Keys \cup {""}, payload : Payloads]
-Init == dir = "absent" /\ entries = <<>> /\ last = [op |-> "none"] /\ steps = 0
+Init == dir = "absent" /\ entries = <<>> /\ last = [op |-> "none"] /\ steps = 0 /\ script = <<[op |-> "Reset"]>>
 DoStore(doc, nc) == LET r == StoreResult(dir, entries, doc, nc) IN
   /\ dir' = r.dir /\ entries' = r.entries
   /\ last' = [op |-> "store", doc |-> doc, nc |-> nc, res |-> r.res, before |-> entries]
+  /\ script' = Append(script, [op |-> "Store", id |-> doc.id, payload |-> doc.payload, nc |-> nc])
 DoRetrieve(id) == /\ UNCHANGED <<dir, entries>>
   /\ last' = [op |-> "retrieve", id |-> id, out |-> RetrieveResult(dir, entries, id)]
-Fault == \/ dir' \in {"absent", "file", "readonly", "noaccess", "present"} /\ entries' = (IF dir' \in {"absent", "file"} THEN <<>> ELSE entries)
-            /\ (dir' = "present" => dir \in {"readonly", "noaccess", "present"})
-         \/ \E k \in DOMAIN entries : dir' = dir /\ entries' \in {Put(entries, k, [kind |-> "damaged"]), Del(entries, k)}
-Next == /\ steps < MaxSteps /\ steps' = steps + 1
+  /\ script' = Append(script, [op |-> "Retrieve", id |-> id])
+\* injected faults, one action per kind (the harness performs them on the real directory)
+RemoveDir == dir' = "absent" /\ entries' = <<>> /\ script' = Append(script, [op |-> "RemoveDir"])
+MakeFile  == dir' = "file" /\ entries' = <<>> /\ script' = Append(script, [op |-> "MakeFile"])
+ChmodDir(m) == dir \in {"present", "readonly", "noaccess"} /\ dir' = m /\ entries' = entries
+               /\ script' = Append(script, [op |-> "ChmodDir", mode |-> m])
+Corrupt(k, how) == k \in DOMAIN entries /\ dir = "present" /\ dir' = dir /\ entries' = Put(entries, k, [kind |-> "damaged"])
+                   /\ script' = Append(script, [op |-> "Corrupt", id |-> k, how |-> how])
+Delete(k) == k \in DOMAIN entries /\ dir = "present" /\ dir' = dir /\ entries' = Del(entries, k)
+             /\ script' = Append(script, [op |-> "Delete", id |-> k])
+Fault == \/ RemoveDir \/ MakeFile
+         \/ \E m \in {"present", "readonly", "noaccess"} : ChmodDir(m)
+         \/ \E k \in Keys, how \in {"empty", "garbage", "foreign", "unreadable"} : Corrupt(k, how)
+         \/ \E k \in Keys : Delete(k)
+Step == /\ steps < MaxSteps /\ steps' = steps + 1
         /\ \/ \E d \in Docs, nc \in BOOLEAN : DoStore(d, nc)
            \/ \E id \in Keys \cup {""} : DoRetrieve(id)
            \/ (Fault /\ last' = [op |-> "fault"])
+Finish == steps = MaxSteps /\ steps' = MaxSteps + 1 /\ UNCHANGED <<dir, entries, last, script>>
+Next == Step \/ Finish
 Spec == Init /\ [][Next]_vars
+PrintScript == steps = MaxSteps + 1 => PrintT(<<"SCRIPT", ToJson(script)>>)
 
 \* round trip, isolation, no-clobber, error reporting - as properties of the last call
 RoundTrip == last.op = "store" /\ last.res = "ok" =>
